@@ -115,6 +115,12 @@ func (n Num) literal() (string, bool) {
 	switch n.C {
 	case "zero":
 		return "0", n.S > 0
+	case "pow2":
+		// 2^e, e >= 0: the exact decimal integer
+		if n.S < 0 || n.E < 0 {
+			return "", false
+		}
+		return new(big.Int).Lsh(big.NewInt(1), uint(n.E)).String(), true
 	case "fin":
 		if n.S < 0 {
 			return "", false
